@@ -46,6 +46,7 @@ CHECKS.update({
  'C11': ('other', "Claimed as wiring + dataflow. Wiring (engine A): the real _compute_error_propagation_matrices, _initialize_covariance and _compute_feedforward_result with real EstimationModel objects on several enable-mask pairs and symbolic values: the joint F and Q handed to compute_process_matrices equal [[F_ii, F_ig H_g, F_ia H_a],[0,F_g,0],[0,0,F_a]] and the sum over physical noise sources (independent of stacking order), P0 = blockdiag(T_int diag(sd^2) T_int^T, P_gyro, P_accel), output compensation = -T_out x to first order, sd^2 = diag(T_out P T_out^T), sensor tables = state sub-vectors. Dataflow (engine B): on every explored schedule of the real feedforward loop the stored x and P terms equal the textbook recursion rebuilt from the schedule (x <- Phi x, P <- Phi P Phi^T + Qd, correct with [H|0|0] in order, dynamics at the averaged nominal state, measurement model at the interpolated computed state). The recursion-equals-batch theorem is cited.", MIX_NOTE, "engine A (symbolic execution on z3 reals, negated identities) + engine B (symbolic execution of the real loop over symbolic time stamps, term comparison)", "DESIGN.md 5/C11"),
  'C12': ('model_checking', "Three of the four sentences: (a) transparency - on every explored path of the real feedback loop with all measurement stamps outside the span (or None / []) there is no predict/correct/set_pva/update, integrate calls partition the increments and the rows handed to the integrator are the original ones; bit-exactness of the identity correction by QF_FP lemmas; with C02 bit-identical to one integrate call; replayed bit for bit on the compiled filter. (c) repeatability - model objects enter with symbolic garbage in their estimate state and no logged token depends on it. (b') one-step feedback consistency of correct_increments after update_estimates(eps x) on real EstimationModel objects (engine A). The whole-run first-order equivalence with the feedforward filter is outside.", MIX_NOTE, B_TECH + " + QF_FP lemmas + engine A for the sensor feedback", "DESIGN.md 5/C12"),
  'C13': ('model_checking', "Integrator: invariant 'stored vertical velocity of the latest state is the literal 0.0' over an arbitrary valid state of the real 2D Integrator and kernel source (symbolic sizes), established by the constructor and by set_pva for arbitrary supplied VD; every produced row has VD = 0.0 and its altitude term is FP-equal to the latest supplied altitude (QF_FP query on the kernel's own term); explicit histories. Feedback loop (engine B): one 2D integrator, every written-back state is the 2D correction of the latest state. FP lemmas for exactly-zero sd and the 2D correction; engine A: T_out 2D rows identically zero, 2D correct_pva returns alt/VD unchanged, Position / NedVelocity return two rows.", MIX_NOTE, "symbolic execution of the real Integrator/kernel/loop over symbolic sizes and stamps + z3 QF_FP queries on kernel terms + engine A identities", "DESIGN.md 5/C13"),
+ 'C18': A("to_180_range for every real angle (remainder as a real in [0,360), path fork on the wrap) in scalar / array / Series / DataFrame forms; Series differences in the regimes no-wrap / heading wraps up / down / roll wraps: antisymmetry, zero self-difference, range and congruence of the angle columns, down and velocity differences; recovery of a perturbation to first order; DataFrame branch on five enumerated concrete time layouts with symbolic values: common index, antisymmetry across the operand swap, zero difference against itself and against a sub-sampling, resampling reproduces original rows, drops outside times, keeps column order, linear midpoint. Layout dimension sampled, not decided. One known finding (equal-rate offset tables).", "DESIGN.md 5/C18"),
 })
 
 NA = {
